@@ -1,6 +1,7 @@
 package main
 
 import (
+	"sync"
 	"bufio"
 	"encoding/json"
 	"flag"
@@ -243,6 +244,48 @@ func cmdCheck(args []string) int {
 			report("vac:"+shortFunc(r.Name), "vacuity", r.Name, "", "requires", "unsat", "the preconditions of this function are contradictory: every proof about it is vacuous", nil)
 		}
 	}
+	// vacuity 2: every return point must be reachable under the assumptions
+	// collected on the way (a contradictory contract makes everything after it
+	// "provable")
+	nCover, nCoverOK := 0, 0
+	{
+		type cj struct {
+			r *FuncResult
+			c *Oblig
+		}
+		var cjs []cj
+		for _, r := range rs {
+			for _, c := range r.Covers {
+				cjs = append(cjs, cj{r, c})
+			}
+		}
+		sts := make([]string, len(cjs))
+		var wg sync.WaitGroup
+		ch := make(chan int)
+		for w := 0; w < runtime.NumCPU(); w++ {
+			wg.Add(1)
+			go func() {
+				defer wg.Done()
+				for i := range ch {
+					q := buildQuery(cjs[i].r, cjs[i].c, 1)
+					sts[i], _, _ = runSolver(solvers[0], q, 5000)
+				}
+			}()
+		}
+		for i := range cjs {
+			ch <- i
+		}
+		close(ch)
+		wg.Wait()
+		for i, j := range cjs {
+			nCover++
+			if sts[i] == "unsat" {
+				report(j.c.Name, "vacuity", j.r.Name, "", "reachability of a return point", "unsat", "the assumptions collected on every path to this return (ignoring the function's own preconditions) are contradictory: a contract assumed at a call site is inconsistent and proofs after that point are vacuous", nil)
+			} else {
+				nCoverOK++
+			}
+		}
+	}
 	byBackend := map[string]int{}
 	solverTime := 0.0
 	nObl, nDis, nUndec, nKnown := 0, 0, 0, 0
@@ -352,6 +395,8 @@ func cmdCheck(args []string) int {
 			"known_findings":           knownLines,
 			"known_findings_count":     nKnown,
 			"vacuity":                  vac,
+			"reachability_covers":      nCover,
+			"reachability_covers_ok":   nCoverOK,
 			"abstractions_and_notes":   noteList,
 			"samples":                  samples,
 			"explanation":              "one SMT query per named obligation generated from the current /repo SSA; discharged = some solver answered unsat on the negated VC",
